@@ -26,6 +26,7 @@ from . import specs as S
 from .refz import RefZygote
 
 PROP = "C12"
+NATIVE_NONDETERMINISM = True  # OpenMP/FFTW internals are outside the simulator
 WISDOM = "fftw_wisdom.pkl"
 _g = {}
 
@@ -67,10 +68,13 @@ def gen_alphabet(rng):
     base = S.base_spec(rng)
     base["precision"] = "double"
     base["footprint"] = rng.random() < 0.7
+    if rng.random() < 0.4:
+        base["repr"] = "np"  # numpy scalars / arrays for the small arguments
     add(base)
     add(dict(alpha[0], precision="single"))  # the single-precision twin
     kinds = ["srf_flx.shape", "modes", "footprint", "analytic", "halo.other", "halo.none", "levels.list", "levels.reorder",
-             "levels.scalar", "domain", "z", "profiles.u", "meas_pt", "srf_bg_conc", "precision", "srf_flx.values"]
+             "levels.scalar", "domain", "z", "profiles.u", "meas_pt", "srf_bg_conc", "precision", "srf_flx.values",
+             "repr.np", "repr.int", "levels.asarray", "profiles.elem", "modes", "precision", "footprint"]
     # always one neighbour with identical array shapes but different values: a
     # memo or buffer keyed by shapes alone collides on it
     for _ in range(6):
